@@ -1,0 +1,23 @@
+// Copyright 2025 The Go Authors. All rights reserved.
+// Use of this source code is governed by a BSD-style
+// license that can be found in the LICENSE file.
+
+//go:build verif
+
+package quic
+
+// Contract for the deductive verifier in /verif (govc), property C27: the anti-amplification budget
+// is credited only for datagrams that come from the address the budget is for. handleDatagram
+// hands a datagram's size to lossState.datagramReceived only when the datagram's source address is
+// unknown (tests) or equals the connection's peer address, and the size is that of the datagram.
+// Packet processing is abstracted (havoccalls); Conn.peerAddr and the datagram's fields are not
+// written by any abstracted callee (checked on the call graph).
+
+//@ func (*Conn).handleDatagram(c, now, dgram) (handled)
+//@   havoccalls except Conn.peerAddr, Conn.side, datagram.peerAddr, datagram.b
+//@   requires c != nil && dgram != nil
+//@   assert at call datagramReceived: !dgram.peerAddr.IsValid() || dgram.peerAddr == c.peerAddr
+//@   assert at call datagramReceived: $size == len(dgram.b)
+//@   loop 1 invariant c != nil && dgram != nil
+//@   partial nopanic, pre
+//@   noframe
